@@ -330,7 +330,7 @@ fn main() {
     };
     let tier = args.tier;
     let mut durs = b_durs();
-    for x in [100_000_000i128, 300_000_000, 500_000_000, 999_999_999, 1_500_000_000, 2 * NS - 1, 2 * NS, 2 * NS + 1, 3 * NS, 86399 * NS + 999_999_999, 43200 * NS] {
+    for x in [100_000_000i128, 300_000_000, 500_000_000, 999_999_999, 1_500_000_000, 2 * NS - 1, 2 * NS, 2 * NS + 1, 3 * NS, 86399 * NS + 999_999_999, 43200 * NS, DAY_NS + 500_000_000, DAY_NS + 999_999_999, DAY_NS - 500_000_000, DAY_NS + NS + 1, 2 * DAY_NS + 500_000_000, 86399 * NS + 500_000_000] {
         durs.push(x);
         durs.push(-x);
     }
